@@ -38,45 +38,63 @@ The file has four independent layers; a harness uses them top-down.
 
 3. ``Run`` - the baton scheduler
    -----------------------------
-   ``Run(world, bodies)``: ``bodies[pid](rt)`` is executed on its own thread;
-   exactly one thread runs at a time.  Every facade call is a *scheduling
-   point*: the process parks with a pending operation, the controller picks
-   who executes next (``run.choices()`` -> ``run.step(choice)``).  A choice is
-   ``(pid, -1)`` "execute pid's pending operation and run it to its next
-   scheduling point", ``(pid, v)`` with v >= 0 "answer pid's pending choice
-   point with value v" (``rt.choose(name, domain)``; choice points are local:
-   while one is pending only its owner is enabled), or ``(pid, CRASH)`` "kill
-   pid now" (descriptors closed, locks released, files stay).  A process
-   whose pending operation is a blocking ``lockf`` on a range held by another
-   process, or a ``sleep`` directly after a failed non-blocking ``lockf``
-   whose range is still held (spinning), is *disabled*.  Nobody enabled while
-   somebody is parked = deadlock.  After the body returns the process parks at
-   a final ``exit`` operation (closing its descriptors).  ``rt.flag(k, v)``
-   publishes per-process facts for the invariants, ``rt.syscall(name, args,
-   thunk)`` makes a harness-defined scheduling point, ``drive(coro)`` runs a
-   coroutine whose awaits never really suspend.  ``run.key()`` is the
-   canonical state: world + per process (status, digest of its own operation
-   history incl. results, pending operation, flags).  A process is
-   deterministic given the results of its own operations, so equal keys have
-   equal futures.  ``run.log`` is the global operation log.
+   ``Run(world, bodies, params=None, symmetric=False)``: ``bodies[pid](rt)``
+   is executed on its own (pooled, reused) thread; exactly one thread runs at
+   a time.  Every facade call is a *scheduling point*: the process parks with
+   a pending operation and whoever is chosen next executes its pending
+   operation and runs to its next scheduling point.  ``run.start()``;
+   ``run.choices()`` lists what can be chosen; ``run.play([choice, ...])`` /
+   ``run.step(choice)`` execute choices (the script is evaluated by the
+   thread that just parked, so consecutive choices for one process cost no
+   thread switch); ``run.finish()`` unwinds the threads.  A choice is
+   ``(pid, STEP)`` "execute pid's pending operation", ``(pid, v)`` with
+   v >= 0 "answer pid's pending choice point with value v"
+   (``rt.choose(name, domain)``; choice points are local: while one is
+   pending only its owner is enabled; a value is not offered twice to the
+   same process), or ``(pid, CRASH)`` "kill pid now" (descriptors closed,
+   locks released, files stay).  A process whose pending operation is a
+   blocking ``lockf`` on a range held by another process, or a ``sleep``
+   directly after a failed non-blocking ``lockf`` whose range is still held
+   (spinning), is *disabled*.  Nobody enabled while somebody is parked =
+   deadlock.  After the body returns (or raises: recorded as the process's
+   outcome) the process parks at a final ``exit`` operation that closes its
+   descriptors.  For bodies: ``rt.flag(k, v)`` publishes per-process facts
+   for the invariants, ``rt.syscall(name, args, thunk)`` makes a
+   harness-defined scheduling point, ``rt.restart_process()`` ends the
+   current process and lets the body continue as a new one, ``rt.params``
+   carries harness data, ``drive(coro)`` runs a coroutine whose awaits never
+   really suspend.  ``run.key()`` is the canonical state: world + per
+   process (status, digest of its own operation history incl. results,
+   pending operation, flags).  A process is deterministic given the results
+   of its own operations, so equal keys have equal futures.  With
+   ``symmetric=True`` (all bodies identical) states that differ only by a
+   renaming of the processes get the same key (``key_and_renaming``), own
+   mkdtemp names / ``getpid`` do not enter a process's history, and a process
+   takes its first step only after its predecessor did.  ``run.log`` is the
+   global operation log ``(step, pid, name, args, result)``; a failed
+   operation has result ``['!', exception type, errno]``.
 
 4. ``explore(ctx, space, res)`` - explicit-state search with replay
    ----------------------------------------------------------------
-   ``Space(name, factory, monitor, preempt=None, crashes=0, params=...)``:
-   ``factory()`` returns a fresh ``Run``; ``monitor(run)`` returns the list of
-   invariant violations of the current state as dicts with at least
-   ``inv, kind, who`` (plus ``expected, observed, kf, note``).  States cannot
-   be copied (threads), so a state *is* its choice history and is rebuilt by
-   replay; search is breadth first by levels (every transition adds exactly
-   one operation to some process history, so a key determines its level),
-   successors of a level are computed in parallel with ``core.pmap`` and
-   deduplicated by key in the parent (smallest schedule wins: deterministic).
-   ``preempt=None`` is the complete space; ``preempt=k`` keeps only schedules
-   with at most k preemptions (switching away from a process that could have
-   continued); then the dedup key is (state, current process) and the
-   smallest number of preemptions used wins.  ``crashes`` is the number of
-   crash choices allowed per schedule.  ``execute(space, schedule)`` replays
-   one schedule and returns the trace (used by ``replay`` of a harness).
+   ``Space(name, factory, monitor, preempt=None, crashes=0, params=...,
+   describe=None, state_cap=None)``: ``factory()`` returns a fresh ``Run``;
+   ``monitor(run)`` returns the list of invariant violations of the current
+   state as dicts with at least ``inv, kind, who`` (plus ``expected,
+   observed, kf, note``); a deadlock is reported by the explorer itself.
+   States cannot be copied (threads), so a state *is* its choice history and
+   is rebuilt by replay; search is breadth first by levels, the successors
+   of a level are computed by a pool of forked workers that lives for the
+   whole search (deterministic chunks, ordered merge) and deduplicated by
+   key in the parent (fewest preemptions, then smallest schedule wins:
+   deterministic).  A violation is reported at the first state of a path
+   where it appears, with the schedule as its case.  ``preempt=None`` is
+   the complete space; ``preempt=k`` keeps only schedules with at most k
+   preemptions (switching away from a process that could have continued);
+   then the dedup key is (state, process that moved last).  ``crashes`` is
+   the number of crash choices allowed per schedule.  ``execute(space,
+   schedule)`` replays one schedule and returns trace, violations, outcomes
+   and a digest; ``confirm(space, res)`` replays the first violation of
+   every signature twice (divergence -> core.Internal).
 
 ``conformance()`` runs operation scripts against the model and against a real
 temporary directory / real ``fcntl`` (second process = forked child) and
